@@ -1,6 +1,12 @@
 ------------------------------- MODULE Gen_Ext -------------------------------
 (* R2 for C08: operand pairs of extension elements with boundary base coefficients (0, 1, p-1, p-2, (p+1)/2, 2^32, 2^32-1,
-   2^63 - where they fit) in every coefficient position; the set is enumerated and thinned by a stride.     *)
+   2^63 - where they fit) in every coefficient position; the set is enumerated and thinned by a stride.
+   Second family ("unit products"): the extension products are sums of base-field partial products x_i * y_j, and the
+   fast paths double / subtract those partial products in their internal representation.  For the two Montgomery fields
+   the coefficient classes Img are the residues whose internal image (v * 2^64 mod p) is a boundary word - 2^63-1, 2^63,
+   the first value whose double exceeds the modulus without a carry, 2^32-1, p-1 ... - and the other operand has a 1 in
+   position j, so that the partial product x_i * y_j *is* that boundary image; for every (class, i, j), alone (all other
+   coefficients zero) and surrounded by ones.  For the 128-bit field the classes sit at the 64-bit limb boundary.   *)
 EXTENDS ExtField, Json, IOUtils, TLC
 Stride == atoi(IOEnv.GE_STRIDE)
 P == Modulus
@@ -8,14 +14,33 @@ Cls == << <<>>, <<1>>, SubN(P, <<1>>), SubN(P, <<2>>), HalfN(AddN(P, <<1>>)), Po
 NC == Len(Cls)
 Elems == [1..Deg -> 1..NC]
 Code(f) == FoldLeft(LAMBDA acc, i : acc * NC + (f[i] - 1), 0, [i \in 1..Deg |-> i])
+Stride2 == atoi(IOEnv.GE_STRIDE2)
+R64 == Pow2N(64)
+RInv == ExpF(R64, SubN(P, <<2>>))                  \* 2^-64 mod p (Fermat)
+Images == CASE FieldName = "f64" -> << SubN(Pow2N(63), <<1>>), Pow2N(63), AddN(SubN(Pow2N(63), Pow2N(31)), <<1>>), SubN(Pow2N(32), <<1>>),
+                                       SubN(P, <<1>>), Pow2N(32), SubN(Pow2N(63), Pow2N(31)) >>
+            [] FieldName = "f62" -> << SubN(P, <<1>>), SubN(P, <<2>>), Pow2N(61), SubN(Pow2N(61), <<1>>), HalfN(AddN(P, <<1>>)), Pow2N(32), <<1>> >>
+            [] OTHER -> << >>
+Img == IF FieldName = "f128"
+       THEN << Pow2N(64), SubN(Pow2N(64), <<1>>), AddN(Pow2N(64), <<1>>), SubN(Pow2N(127), <<1>>), AddN(Pow2N(96), <<1>>), SubN(Pow2N(128), Pow2N(64)) >>
+       ELSE [k \in 1..Len(Images) |-> MulF(Images[k], RInv)]
+NI == Len(Img)
+Bytes(v) == ToBytes(v, ElemBytes)
+Alone(c, i) == [k \in 1..Deg |-> Bytes(IF k = i THEN c ELSE <<>>)]
+Among(c, i) == [k \in 1..Deg |-> Bytes(IF k = i THEN c ELSE <<1>>)]
 VARIABLE sc
 \* every zero / non-zero pattern of the coefficients (0 and p-1), whatever the stride: x with the pattern, y with its mirror image
 Patterns == [1..Deg -> {1, 3}]
-Init == \E f \in Elems, g \in Elems :
+Init == \/ \E f \in Elems, g \in Elems :
             /\ \/ (Code(f) * 7 + Code(g) * 13) % Stride = 0
                \/ f \in Patterns /\ g = [i \in 1..Deg |-> f[Deg + 1 - i]]
             /\ sc = [x |-> [i \in 1..Deg |-> ToBytes(Cls[f[i]], ElemBytes)], y |-> [i \in 1..Deg |-> ToBytes(Cls[g[i]], ElemBytes)],
                      b |-> ToBytes(Cls[f[1]], ElemBytes), b2 |-> ToBytes(Cls[g[Deg]], ElemBytes)]
+        \* unit products
+        \/ \E c \in 1..NI, i \in 1..Deg, j \in 1..Deg, among \in BOOLEAN :
+            /\ ((c * Deg + i) * Deg + j) % Stride2 = 0
+            /\ sc = IF among THEN [x |-> Among(Img[c], i), y |-> Among(Img[(c % NI) + 1], j), b |-> Bytes(Img[c]), b2 |-> Bytes(Img[(c % NI) + 1])]
+                             ELSE [x |-> Alone(Img[c], i), y |-> Alone(<<1>>, j), b |-> Bytes(Img[c]), b2 |-> Bytes(<<1>>)]
 Next == UNCHANGED sc
 Emit == PrintT(ToJson(sc))
 =============================================================================
